@@ -80,7 +80,9 @@ Shapes == <<
   \* rarely used syntax: unary plus, parentheses around a selector that is a function's argument
   "timestamp_pos", "timestamp_paren", "timestamp_pos_off", "pos_vec", "pos_agg", "abs_pos", "sum_timestamp_pos",
   \* scalar-typed expressions over @-pinned parts (evaluated once, at the pinned time, for every step of the window)
-  "scalar_pin", "vec_plus_scalar_pin", "clampmin_scalar_sumend", "vector_scalar_pin", "scalar_pin_plus_time" >>
+  "scalar_pin", "vec_plus_scalar_pin", "clampmin_scalar_sumend", "vector_scalar_pin", "scalar_pin_plus_time",
+  \* timestamp() over a selector that is pinned and shifted
+  "timestamp_end_off", "timestamp_pin_off" >>
 
 PH(p) == FoldSet(LAMBDA u, acc : acc + (IF p[u] = "-" THEN 0 ELSE IF p[u] = "f" THEN u ELSE 5 * u), 0, 1..Period)
 Hash(x) == (x.n * 7 + (IF x.vp = "pos" THEN 1 ELSE IF x.vp = "mixed" THEN 2 ELSE 3) * 11 + x.lb * 13
@@ -144,6 +146,8 @@ PlanOf(x) ==
     [] sh = "pos_agg"        -> Over(SumA(M), LAMBDA c : Pos(c))
     [] sh = "abs_pos"        -> F1("abs", Over(M, LAMBDA c : Pos(c)))
     [] sh = "sum_timestamp_pos" -> SumA(F1("timestamp", Over(M, LAMBDA c : Pos(c))))
+    [] sh = "timestamp_end_off" -> F1("timestamp", MEnd)
+    [] sh = "timestamp_pin_off" -> F1("timestamp", <<SelAt(<<Metric("m")>>, -1, "lit", 3)>>)
     [] sh = "scalar_pin"     -> F1("scalar", MXPin)
     [] sh = "vec_plus_scalar_pin" -> B("+", M, F1("scalar", MXPin))
     [] sh = "clampmin_scalar_sumend" -> F2("clamp_min", M, F1("scalar", Over(MEnd, LAMBDA c : Agg("sum", TRUE, <<>>, <<c>>))))
